@@ -186,3 +186,52 @@ pub fn any_tokens_inbounds<const N: usize>(src_len: usize) -> [Token; N] {
         kind: any_token_kind(),
     })
 }
+
+/// A lighter kind menu (no dictionary metadata) for kernels that only look at the structural class.
+pub fn any_token_kind_light() -> TokenKind {
+    match kani::any::<u8>() {
+        0 => TokenKind::Word(None),
+        1 => TokenKind::Punctuation(Punctuation::Period),
+        2 => TokenKind::Punctuation(Punctuation::Comma),
+        3 => TokenKind::Punctuation(Punctuation::Apostrophe),
+        4 => TokenKind::Space(1),
+        5 => TokenKind::Newline(1),
+        6 => TokenKind::Unlintable,
+        x => {
+            kani::assume(x == 7);
+            TokenKind::ParagraphBreak
+        }
+    }
+}
+
+pub fn any_tokens_ordered_light<const N: usize>(src_len: usize) -> [Token; N] {
+    let mut prev_end = 0usize;
+    core::array::from_fn(|_| {
+        let start: usize = kani::any();
+        let end: usize = kani::any();
+        kani::assume(prev_end <= start && start <= end && end <= src_len);
+        prev_end = end;
+        Token {
+            span: Span { start, end },
+            kind: any_token_kind_light(),
+        }
+    })
+}
+
+/// Nondeterministic stand-ins for Unicode table look-ups (binary searches over large static
+/// tables in `core` / `unicode-script`). They over-approximate the tables: any answer is
+/// possible for any character, so what is shown with them holds for the real tables too.
+pub mod stubs {
+    pub fn any_bool_for_char(_c: char) -> bool {
+        kani::any()
+    }
+    /// `unicode_script::get_script`: Latin, some non-Latin script, or unknown - a complete
+    /// partition of the answers with respect to the only comparison harper makes (`== Latin`).
+    pub fn any_script(_c: char) -> Option<unicode_script::Script> {
+        match kani::any::<u8>() {
+            0 => Some(unicode_script::Script::Latin),
+            1 => Some(unicode_script::Script::Han),
+            _ => None,
+        }
+    }
+}
